@@ -1,6 +1,8 @@
 package transport
 
 import (
+	"bytes"
+	"encoding/json"
 	"io"
 	"net/http"
 	"net/http/httptest"
@@ -115,4 +117,186 @@ func Harness_C10_wsFrames() {
 		conn.Close()
 	}
 	zzsym.Reach("c10.ws.frames")
+}
+
+// ---- the wire format of both subprotocols against tables written from
+// their specifications (graphql-ws = subscriptions-transport-ws PROTOCOL.md,
+// graphql-transport-ws = graphql-ws PROTOCOL.md), independent of the
+// implementation's constants.
+
+var c10WsSent []string // frames the server wrote (engine: WriteJSON stub; natively read by the client side)
+
+//sym:stub (*github.com/gorilla/websocket.Conn).WriteJSON
+func Stub_wsWriteJSON(c *websocket.Conn, v any) error {
+	b, err := json.Marshal(v)
+	if err != nil {
+		return err
+	}
+	c10WsSent = append(c10WsSent, string(b))
+	return nil
+}
+
+// server -> client: wire type per internal message type ("" = nothing is written)
+var c10WireOut = map[string]map[messageType]string{
+	graphqlwsSubprotocol: {
+		connectionAckMessageType: "connection_ack", keepAliveMessageType: "ka", connectionErrorMessageType: "connection_error",
+		dataMessageType: "data", errorMessageType: "error", completeMessageType: "complete", pingMessageType: "", pongMessageType: "",
+	},
+	graphqltransportwsSubprotocol: {
+		connectionAckMessageType: "connection_ack", keepAliveMessageType: "", connectionErrorMessageType: "",
+		dataMessageType: "next", errorMessageType: "error", completeMessageType: "complete", pingMessageType: "ping", pongMessageType: "pong",
+	},
+}
+
+// client -> server: internal message type per wire type
+var c10WireIn = map[string]map[string]messageType{
+	graphqlwsSubprotocol: {
+		"connection_init": initMessageType, "connection_terminate": connectionCloseMessageType, "start": startMessageType, "stop": stopMessageType,
+	},
+	graphqltransportwsSubprotocol: {
+		"connection_init": initMessageType, "subscribe": startMessageType, "complete": stopMessageType, "ping": pingMessageType, "pong": pongMessageType,
+	},
+}
+
+var c10WireTypes = []string{"connection_init", "connection_terminate", "start", "stop", "subscribe", "complete", "ping", "pong", "next", "data", "ka", "connection_ack"}
+
+// Harness_C11_wire: every server message through the real exchanger's Send
+// (the frame written carries the subprotocol's type name for it, the id and
+// the payload unchanged - or nothing is written for the messages the
+// subprotocol does not have), and every client frame type through the real
+// NextMessage (the internal message it stands for, id and payload unchanged).
+func Harness_C11_wire() {
+	proto := []string{graphqlwsSubprotocol, graphqltransportwsSubprotocol}[zzsym.Choice("proto", 2)]
+	id := []string{"", "1", "op-é\"x"}[zzsym.Choice("id", 3)]
+	payload := []string{"", `null`, `{"data":{"a":[1,"x"]}}`, `[{"message":"m"}]`}[zzsym.Choice("payload", 4)]
+	if zzsym.Choice("dir", 2) == 0 {
+		// server -> client
+		outs := c10WireOut[proto]
+		var ts []messageType
+		for t := initMessageType; t <= pongMessageType; t++ {
+			if _, ok := outs[t]; ok {
+				ts = append(ts, t)
+			}
+		}
+		t := ts[zzsym.Choice("type", len(ts))]
+		c10WsSent = nil
+		conn, read := c10WireConn(proto, nil)
+		var me messageExchanger
+		if proto == graphqlwsSubprotocol {
+			me = graphqlwsMessageExchanger{c: conn}
+		} else {
+			me = graphqltransportwsMessageExchanger{c: conn}
+		}
+		var raw json.RawMessage
+		if payload != "" {
+			raw = json.RawMessage(payload)
+		}
+		err := me.Send(&message{t: t, id: id, payload: raw})
+		zzsym.Assert(err == nil, "a server message of the subprotocol is sent without error")
+		frames := read()
+		if outs[t] == "" {
+			zzsym.Assert(len(frames) == 0, "a message the subprotocol does not have is not written")
+			zzsym.Reach("c11.wire.noop")
+			return
+		}
+		zzsym.Assert(len(frames) == 1, "one frame per message")
+		var got struct {
+			Type    string          `json:"type"`
+			ID      string          `json:"id"`
+			Payload json.RawMessage `json:"payload"`
+		}
+		zzsym.Assert(json.Unmarshal([]byte(frames[0]), &got) == nil, "the frame is one JSON object")
+		zzsym.Assert(got.Type == outs[t], "the frame carries the subprotocol's name of the message")
+		zzsym.Assert(got.ID == id, "the id is written unchanged")
+		want := payload
+		if want == "" {
+			zzsym.Assert(len(got.Payload) == 0, "no payload member without a payload")
+		} else {
+			var cb bytes.Buffer
+			zzsym.Assert(json.Compact(&cb, got.Payload) == nil && cb.String() == want, "the payload is written unchanged")
+		}
+		zzsym.Reach("c11.wire.sent")
+		return
+	}
+	// client -> server
+	wt := c10WireTypes[zzsym.Choice("wtype", len(c10WireTypes))]
+	idj, _ := json.Marshal(id)
+	frame := `{"type":"` + wt + `"`
+	if id != "" {
+		frame += `,"id":` + string(idj)
+	}
+	if payload != "" {
+		frame += `,"payload":` + payload
+	}
+	frame += `}`
+	conn, _ := c10WireConn(proto, []string{frame})
+	var me messageExchanger
+	if proto == graphqlwsSubprotocol {
+		me = graphqlwsMessageExchanger{c: conn}
+	} else {
+		me = graphqltransportwsMessageExchanger{c: conn}
+	}
+	m, err := me.NextMessage()
+	want, known := c10WireIn[proto][wt]
+	if !known {
+		// refused by the decoder, or handed on as a message no client request is made of (the reader loop answers those as unexpected)
+		clientReq := m.t == initMessageType || m.t == startMessageType || m.t == stopMessageType || m.t == connectionCloseMessageType || m.t == pingMessageType || m.t == pongMessageType
+		zzsym.Assert(err != nil || !clientReq, "a frame type the client may not send in this subprotocol is never taken for a client request")
+		zzsym.Reach("c11.wire.refused")
+		return
+	}
+	zzsym.Assert(err == nil && m.t == want, "the frame is decoded to the message its type name stands for in this subprotocol")
+	zzsym.Assert(m.id == id, "the id is read unchanged")
+	if payload == "" {
+		zzsym.Assert(len(m.payload) == 0, "no payload")
+	} else {
+		zzsym.Assert(string(m.payload) == payload, "the payload is read unchanged")
+	}
+	zzsym.Reach("c11.wire.decoded")
+}
+
+// c10WireConn: like c10WsConn, plus a function returning the frames the
+// server side has written so far.
+func c10WireConn(proto string, frames []string) (*websocket.Conn, func() []string) {
+	if zzsym.Symbolic() {
+		c10WsQueue = append([]string(nil), frames...)
+		return &websocket.Conn{}, func() []string { return c10WsSent }
+	}
+	ready := make(chan *websocket.Conn, 1)
+	srv := httptest.NewServer(http.HandlerFunc(func(w http.ResponseWriter, r *http.Request) {
+		up := websocket.Upgrader{Subprotocols: []string{proto}}
+		c, err := up.Upgrade(w, r, nil)
+		if err != nil {
+			ready <- nil
+			return
+		}
+		ready <- c
+	}))
+	d := websocket.Dialer{Subprotocols: []string{proto}}
+	cc, _, err := d.Dial("ws"+strings.TrimPrefix(srv.URL, "http"), nil)
+	if err != nil {
+		panic(err)
+	}
+	sc := <-ready
+	for _, f := range frames {
+		if err := cc.WriteMessage(websocket.TextMessage, []byte(f)); err != nil {
+			panic(err)
+		}
+	}
+	return sc, func() []string {
+		// the server side is closed, then the client reads whatever was written before the close
+		sc.WriteMessage(websocket.CloseMessage, websocket.FormatCloseMessage(websocket.CloseNormalClosure, ""))
+		var got []string
+		for {
+			_, b, err := cc.ReadMessage()
+			if err != nil {
+				break
+			}
+			got = append(got, string(b))
+		}
+		cc.Close()
+		sc.Close()
+		srv.Close()
+		return got
+	}
 }
